@@ -130,7 +130,7 @@ func rangeHeaders(n int64) []string {
 }
 
 func runC11(c *engine.Ctx) {
-	c.Rule = "case = (object size 0..N, Range header from the menu: every first/last/suffix value in -1..N+2 and around 2^31/2^63/2^64/10^30, whitespace variants, malformed specs, other units, multiple ranges) on every backend, compared with the arithmetic oracle and across backends; distinct_nontrivial = distinct (size, header) cases that are served as a satisfiable range"
+	c.Rule = "case = (object size 0..N, Range header from the menu: every first/last/suffix value in -1..N+2 and around 2^31/2^63/2^64/10^30, whitespace variants, malformed specs, other units, multiple ranges) on every backend (and, on the memory backend, of an archived and of the current version read by versionId in a versioned bucket), compared with the arithmetic oracle and across backends; distinct_nontrivial = distinct (size, header) cases that are served as a satisfiable range"
 	c.Assumptions = append(c.Assumptions, "200 and 206 are both accepted for a served range (statement does not fix it)", "multi-range headers: 416, 501 NotImplemented or the whole object, identical on all backends", "whitespace in the spec may be trimmed (then served correctly) or rejected", "an explicit '+' sign is treated like whitespace: served as the number or rejected")
 	N := int64(8)
 	kinds := drv.AllKinds
@@ -150,7 +150,26 @@ func runC11(c *engine.Ctx) {
 	var mu sync.Mutex
 	perCase := map[string]map[string]string{}
 	_ = results
-	for _, kind := range kinds {
+	// variants: every backend with plain objects; the memory backend also with a
+	// versioned bucket, reading an archived and the current version by id
+	type variant struct {
+		name string
+		kind drv.Kind
+		ver  string // "" | "old" | "current"
+	}
+	var variants []variant
+	for _, k := range kinds {
+		variants = append(variants, variant{string(k), k, ""})
+	}
+	variants = append(variants, variant{"mem+versionId(archived)", drv.Mem, "old"}, variant{"mem+versionId(current)", drv.Mem, "current"})
+	ks = ks[:0]
+	for _, vr := range variants {
+		ks = append(ks, vr.name)
+	}
+	c.Bounds["worlds"] = ks
+	for _, vr := range variants {
+		kind := vr.kind
+		vname := vr.name
 		w, err := drv.NewWorld(drv.Config{Kind: kind})
 		if err != nil {
 			engine.HarnessError("C11: %v", err)
@@ -158,15 +177,37 @@ func runC11(c *engine.Ctx) {
 		if !kind.IsSingle() {
 			w.Do(drv.Req{Method: "PUT", Path: "/aaa"})
 		}
+		if vr.ver != "" {
+			if r := w.Do(drv.Req{Method: "PUT", Path: "/aaa", Query: "versioning", Body: []byte("<VersioningConfiguration><Status>Enabled</Status></VersioningConfiguration>")}); r.Status != 200 {
+				engine.HarnessError("C11 setup versioning: %s", r.Short())
+			}
+		}
 		bodies := map[int64][]byte{}
+		queries := map[int64]string{}
 		for sz := int64(0); sz <= N; sz++ {
 			b := make([]byte, sz)
 			for i := range b {
 				b[i] = byte('a' + i)
 			}
 			bodies[sz] = b
-			if r := w.Do(drv.Req{Method: "PUT", Path: fmt.Sprintf("/aaa/o%d", sz), Body: b}); r.Status != 200 {
-				engine.HarnessError("C11 setup put: %s", r.Short())
+			puts := [][]byte{b}
+			if vr.ver == "old" {
+				puts = [][]byte{b, []byte("NEWER-CONTENT-OF-ANOTHER-LENGTH")}
+			} else if vr.ver == "current" {
+				puts = [][]byte{[]byte("OLDER-CONTENT-OF-ANOTHER-LENGTH"), b}
+			}
+			for _, pb := range puts {
+				r := w.Do(drv.Req{Method: "PUT", Path: fmt.Sprintf("/aaa/o%d", sz), Body: pb})
+				if r.Status != 200 {
+					engine.HarnessError("C11 setup put: %s", r.Short())
+				}
+				if vr.ver != "" && bytes.Equal(pb, b) {
+					id := r.Header.Get("x-amz-version-id")
+					if id == "" {
+						engine.HarnessError("C11 setup: no version id on a versioned put")
+					}
+					queries[sz] = drv.Q("versionId", id)
+				}
 			}
 		}
 		total := int(N+1) * len(hdrs)
@@ -177,7 +218,7 @@ func runC11(c *engine.Ctx) {
 			if h != "" {
 				hdr = drv.H("Range", h)
 			}
-			r := w.Do(drv.Req{Method: "GET", Path: fmt.Sprintf("/aaa/o%d", sz), Header: hdr})
+			r := w.Do(drv.Req{Method: "GET", Path: fmt.Sprintf("/aaa/o%d", sz), Query: queries[sz], Header: hdr})
 			c.Add(0, 0, 0, 1)
 			body := bodies[sz]
 			canon := fmt.Sprintf("%s|cl=%s|cr=%s|%q", respSig(r), hget(r, "Content-Length"), hget(r, "Content-Range"), r.Body)
@@ -186,11 +227,15 @@ func runC11(c *engine.Ctx) {
 			if perCase[ck] == nil {
 				perCase[ck] = map[string]string{}
 			}
-			perCase[ck][string(kind)] = canon
+			perCase[ck][vname] = canon
 			mu.Unlock()
 			bad := func(field, cond, format string, a ...interface{}) {
-				c.Report(&engine.Violation{Sig: sig("C11", "any", "get-range", field, cond), World: string(kind),
-					History: []string{fmt.Sprintf("size=%d Range=%q", sz, h)}, Msg: fmt.Sprintf("object of %d bytes, Range: %q on %s: ", sz, h, kind) + fmt.Sprintf(format, a...)})
+				op := "get-range"
+				if queries[sz] != "" {
+					op = "get-version-range"
+				}
+				c.Report(&engine.Violation{Sig: sig("C11", "any", op, field, cond), World: vname,
+					History: []string{fmt.Sprintf("size=%d Range=%q %s", sz, h, queries[sz])}, Msg: fmt.Sprintf("object of %d bytes, Range: %q on %s: ", sz, h, vname) + fmt.Sprintf(format, a...)})
 			}
 			if r.Panic != "" {
 				bad("panic@"+drv.PanicFrame(r.Panic), "-", "%s", firstLine(r.Panic))
@@ -246,7 +291,7 @@ func runC11(c *engine.Ctx) {
 				bad("rejection", "-", "want 416 InvalidRange; got %s cl=%s cr=%q body=%q", r.Short(), hget(r, "Content-Length"), hget(r, "Content-Range"), r.Body)
 			}
 		})
-		c.Count(string(kind), "requests", int64(total))
+		c.Count(vname, "requests", int64(total))
 		w.Close()
 	}
 	// identical across backends
